@@ -488,9 +488,9 @@ def finish(rep, tier, t0, explanation, assumptions, prog, extra=None):
             matched.append((hit, it))
         else:
             violations.append(it)
-    # floors
+    # floors (a rule that stopped early because it found a violation is not "vacuous")
     for rule, n in rep.floors.items():
-        if rep.counts.get(rule, 0) < n:
+        if rep.counts.get(rule, 0) < n and not violations:
             raise AnalysisError(
                 f"rule {rule} matched {rep.counts.get(rule, 0)} instance(s), below the floor {n} "
                 "confirmed by hand on the pinned tree (rule would pass vacuously)"
